@@ -60,7 +60,7 @@ RecTerms(r, grp_n) ==
   CASE r.k = "do"  -> OutTerm(r) \cup {TruthDo(ToSet(r.x), ToSet(r.y), 0)}
     [] r.k = "cdo" -> OutTerm(r) \cup {TruthCDo(ToSet(r.x), ToSet(r.y), ToSet(r.z), 0)}
     [] r.k = "eq"  -> {r.a, r.b}
-    [] r.k = "calc"  -> OutTerm(r) \cup {Math(r.m), DevMath(r.m)}
+    [] r.k = "calc"  -> OutTerm(r) \cup {Math(r.m), DevMath(r.m), DevMathE(r.m)}
     [] r.k = "canon" -> OutTerm(r) \cup {r.pre}
     [] r.k = "pp"    -> OutTerm(r) \cup {r.a}
     [] r.k = "star"  -> OutTerm(r) \cup {EventTerm(r.ev, 0)}
@@ -152,8 +152,10 @@ JudgeCalc(Ws, r) ==
          ELSE LET c == Cmp(Ws, r.out.e, mt) IN
               IF c.nbad > 0
               THEN LET dv == DevMath(r.m)
-                       c2 == IF dv = mt THEN c ELSE Cmp(Ws, r.out.e, dv) IN
-                   IF c2.nbad = 0 /\ c2.ndef > 0 THEN Verdict(r.id, FALSE, "value-dev-cond", c)
+                       dw == DevMathE(r.m)
+                       c2 == IF dv = mt THEN c ELSE Cmp(Ws, r.out.e, dv)
+                       c3 == IF dw = mt THEN c ELSE IF dw = dv THEN c2 ELSE Cmp(Ws, r.out.e, dw) IN
+                   IF (c2.nbad = 0 /\ c2.ndef > 0) \/ (c3.nbad = 0 /\ c3.ndef > 0) THEN Verdict(r.id, FALSE, "value-dev-cond", c)
                    ELSE Verdict(r.id, FALSE, "value", c)
               ELSE Verdict(r.id, TRUE, IF c.ndef = 0 THEN "skip-undefined" ELSE "ok", c)
 \* canonicalisation (C10): same denotation, claimed for well-scoped presentations
